@@ -14,6 +14,20 @@ func VerifTokens(src string) []Token {
 	return res
 }
 
+// VerifTokensN is VerifTokens with a bound: it stops reading after max tokens (the lexer goroutine
+// then stays blocked on its channel) and reports whether it stopped early.
+func VerifTokensN(src string, max int) ([]Token, bool) {
+	l := Lex(src)
+	res := []Token{}
+	for t := range l.tokens {
+		res = append(res, t)
+		if len(res) >= max {
+			return res, true
+		}
+	}
+	return res, false
+}
+
 // VerifRest returns the epilogue slice of a parsed file.
 func VerifRest(r *RootNode) string { return r.rest }
 
